@@ -157,7 +157,8 @@ let show_body (b : tx_body) : string =
   Buffer.contents buf
 
 (* ---- the implementation's line: R … S … TX … ORA … ---- *)
-type impl = { i_res : string list; i_tx : impl_tx option; i_ora : tape_state list; i_ora_text : string; i_tx_text : string }
+type impl = { i_res : string list; i_tx : impl_tx option; i_ora : tape_state list; i_ora_text : string; i_tx_text : string;
+              i_txb : n list option; i_at : (n list * n) list; i_rt : (n list * n) list }
 
 let site_code s = n_of_int (Char.code s.[0])
 
@@ -213,8 +214,17 @@ let parse_impl (l : string list) : impl option =
             | ok -> let m = (match count t with Some m -> m | None -> 0) in
               let ids = rep m (fun () -> num t) in Some (ids, ok = "1")) in
         { t_tape = tape; t_sel = sel; t_bad = false }) in
+    (* the transaction's bytes and the identifier tables, for the judge *)
+    expect t "TXB";
+    let txb = (match next t with "~" -> None | h -> Some (bytes_of_hex h)) in
+    expect t "AT";
+    let na = (match count t with Some n -> n | None -> 0) in
+    let at = rep na (fun () -> let id = num t in let b = bytes t in (b, id)) in
+    expect t "RT";
+    let nr = (match count t with Some n -> n | None -> 0) in
+    let rt = rep nr (fun () -> let id = num t in let b = bytes t in (b, id)) in
     let ora_text = String.concat " " (Array.to_list (Array.sub t.a ora_start (t.pos - ora_start))) in
-    Some { i_res = res; i_tx = tx; i_ora = ora; i_ora_text = ora_text; i_tx_text = tx_text }
+    Some { i_res = res; i_tx = tx; i_ora = ora; i_ora_text = ora_text; i_tx_text = tx_text; i_txb = txb; i_at = at; i_rt = rt }
   | _ -> None
 
 let empty_tape = { t_tape = []; t_sel = None; t_bad = false }
@@ -255,5 +265,21 @@ let () = run_driver (fun toks impl_toks ->
     Buffer.add_string b " TX ";
     Buffer.add_string b (match tx with Some body -> show_body body | None -> "~");
     Buffer.add_string b (" " ^ im.i_ora_text);
-    let v = judge sc.cfg.c_pool_deposit sc.cfg.c_key_deposit sc.utxos im.i_tx in
+    (* the verdict comes from the bytes, read by Builder/TxReader.v; the library's own reading of the same transaction
+       (the TX section, compared with the model above) must agree with it on whether there is a transaction *)
+    let v = judge_bytes sc.cfg.c_pool_deposit sc.cfg.c_key_deposit sc.utxos im.i_at im.i_rt im.i_txb in
+    let v = (match im.i_tx, im.i_txb with Some _, None | None, Some _ -> FailsUnknown | _ -> v) in
+    (* the two readings of the same bytes must also agree field by field (withdrawals and proposal deposits up to order) *)
+    let sort_n l = List.sort (fun a b -> BZ.compare (bz_of_n a) (bz_of_n b)) l in
+    let sort_w l = List.sort (fun (a, _) (b, _) -> BZ.compare (bz_of_n a) (bz_of_n b)) l in
+    let norm (t : impl_tx) = { t with i_withdrawals = sort_w t.i_withdrawals; i_proposals = sort_n t.i_proposals;
+                                      i_outputs = List.map (fun o -> { o with o_amount = wire_value o.o_amount }) t.i_outputs } in
+    let v = (match im.i_tx, im.i_txb with
+        | Some lib, Some bs ->
+          (match read_tx bs with
+           | Some raw -> (match impl_of_raw im.i_at im.i_rt raw with
+               | Some mine -> if norm mine = norm lib then v else FailsUnknown
+               | None -> FailsUnknown)
+           | None -> FailsUnknown)
+        | _ -> v) in
     (Buffer.contents b, show_verdict v))
